@@ -369,7 +369,8 @@ class __Class(_pre.Pregex):
         if not self.__is_negated:
             if isinstance(pre, str) and (len(pre) == 1):
                 pre = AnyFrom(pre)
-            elif isinstance(pre, _pre.Pregex) and pre._get_type() == _pre._Type.Token:
+            elif isinstance(pre, _pre.Pregex) and not isinstance(pre, __class__) \
+                and pre._get_type() == _pre._Type.Token:
                 pre = AnyFrom(pre)
         if not issubclass(pre.__class__, __class__):
             raise _ex.CannotBeUnionedException(pre, False)
@@ -387,7 +388,8 @@ class __Class(_pre.Pregex):
         if not self.__is_negated:
             if isinstance(pre, str) and (len(pre) == 1):
                 pre = AnyFrom(pre)
-            elif isinstance(pre, _pre.Pregex) and pre._get_type() == _pre._Type.Token:
+            elif isinstance(pre, _pre.Pregex) and not isinstance(pre, __class__) \
+                and pre._get_type() == _pre._Type.Token:
                 pre = AnyFrom(pre)
         if not issubclass(pre.__class__, __class__):
             raise _ex.CannotBeUnionedException(pre, False)
@@ -502,7 +504,8 @@ class __Class(_pre.Pregex):
         if not self.__is_negated:
             if isinstance(pre, str) and (len(pre) == 1):
                 pre = AnyFrom(pre)
-            elif isinstance(pre, _pre.Pregex) and pre._get_type() == _pre._Type.Token:
+            elif isinstance(pre, _pre.Pregex) and not isinstance(pre, __class__) \
+                and pre._get_type() == _pre._Type.Token:
                 pre = AnyFrom(pre)
         if not issubclass(pre.__class__, __class__):
             raise _ex.CannotBeSubtractedException(pre, False)
@@ -520,7 +523,8 @@ class __Class(_pre.Pregex):
         if not self.__is_negated:
             if isinstance(pre, str) and (len(pre) == 1):
                 pre = AnyFrom(pre)
-            elif isinstance(pre, _pre.Pregex) and pre._get_type() == _pre._Type.Token:
+            elif isinstance(pre, _pre.Pregex) and not isinstance(pre, __class__) \
+                and pre._get_type() == _pre._Type.Token:
                 pre = AnyFrom(pre)
         if not issubclass(pre.__class__, __class__):
             raise _ex.CannotBeSubtractedException(pre, False)
